@@ -364,7 +364,74 @@ Proof.
   - intros l E. discriminate E.
 Qed.
 
+(* ------------------------------------------------------------------ every uci of a session is answered with exactly one uciok *)
+Definition is_uciok (o : uout) : bool := match o with OText s => String.eqb s "uciok" | _ => false end.
+Definition count_uciok (outs : list uout) : nat := List.length (filter is_uciok outs).
+Definition uci_line (line : string) : bool :=
+  negb (String.eqb (trim line) "") && String.eqb (lower_str (first_token (trim line))) "uci".
+Lemma count_uciok_app a b : count_uciok (a ++ b)%list = (count_uciok a + count_uciok b)%nat.
+Proof. unfold count_uciok. rewrite filter_app, app_length. reflexivity. Qed.
+Lemma count_uciok_msgs msgs : Forall illegal_msg msgs -> count_uciok (map OText msgs) = O.
+Proof.
+  intros F. induction F as [|m l (t & ->) _ IH]; [reflexivity|]. unfold count_uciok in *. cbn [map filter is_uciok].
+  change (String.eqb (String.append "Illegal 'go' command: '" t) "uciok") with false. exact IH.
+Qed.
+Lemma count_uciok_repeat n : count_uciok (repeat (OText "readyok") n) = O.
+Proof. induction n as [|n IH]; [reflexivity|]. exact IH. Qed.
+Lemma count_uciok_search l : count_uciok (map OSearchOut l) = O.
+Proof. unfold count_uciok. rewrite (filter_map_none OSearchOut) by reflexivity. reflexivity. Qed.
+
+Lemma step_uciok_count extra dl u line input :
+  let '(_, outs, _, _, _) := uci_step extra dl u line input in count_uciok outs = if uci_line line then 1%nat else O.
+Proof.
+  unfold uci_step, uci_line. cbv zeta.
+  destruct (String.eqb (trim line) "") eqn:E0; [reflexivity|]. cbn [negb andb].
+  set (cmd := lower_str (first_token (trim line))).
+  destruct (String.eqb_spec cmd "uci") as [EI|NI].
+  { rewrite EI. cbn [String.eqb Ascii.eqb Bool.eqb orb]. reflexivity. }
+  destruct (String.eqb cmd "quit" || String.eqb cmd "exit" || String.eqb cmd "x")%bool; [reflexivity|].
+  destruct (String.eqb_spec cmd "uci") as [E|_]; [contradiction|].
+  destruct (String.eqb cmd "isready"); [reflexivity|].
+  destruct (String.eqb cmd "ucinewgame" || String.eqb cmd "cleartt")%bool; [reflexivity|].
+  destruct (String.eqb cmd "d"); [reflexivity|]. destruct (String.eqb cmd "eval"); [reflexivity|].
+  destruct (String.eqb cmd "position").
+  { destruct (negb _); [reflexivity|]. destruct (parse_position _) as [[g rep]| |]; reflexivity. }
+  destruct (String.eqb cmd "go").
+  - pose proof (go_tokens_msgs (white (u_game u)) (S (String.length (trim line))) go_init (split_sp (skip 2 (trim line))) [] (Forall_nil _)) as M.
+    destruct (go_tokens _ _ _ _ _) as [a msgs|msgs| |]; [| exact (count_uciok_msgs msgs M) | reflexivity | reflexivity].
+    destruct (session_search _ _ _ _ _ _) as [so e sc|]; [|reflexivity].
+    destruct (poll_schedule input 0 _ (List.length input)) as [[nready stopper] rest].
+    rewrite !count_uciok_app, (count_uciok_msgs msgs M), count_uciok_repeat, count_uciok_search. reflexivity.
+  - destruct (String.eqb cmd "stop"); [reflexivity|].
+    destruct (String.eqb cmd "move"). { destruct (play_moves _ _ _) as [[g rep]| |]; reflexivity. }
+    destruct (String.eqb cmd "perft").
+    { destruct (rest_tokens (trim line)) as [|t r]; [reflexivity|]. destruct (String.eqb t "simple"); [reflexivity|].
+      destruct (parse_uint 256 t) as [d|]; [|reflexivity]. destruct (d =? 0)%N; reflexivity. }
+    destruct (String.eqb cmd "perft!").
+    { destruct (rest_tokens (trim line)) as [|t r]; [reflexivity|].
+      destruct (parse_uint 256 t) as [d|]; [|reflexivity]. destruct (d =? 255)%N; [reflexivity|].
+      rewrite count_uciok_app. unfold count_uciok at 1. rewrite filter_map_none by reflexivity. reflexivity. }
+    destruct (_ || _)%bool; reflexivity.
+Qed.
+
+Theorem C13_every_uci_of_a_session_is_answered_exactly_once : forall extra dls fuel u pending input,
+  count_uciok (fst (uci_run extra dls fuel u pending input)) =
+  List.length (filter uci_line (map snd (uci_exec extra dls fuel u pending input))).
+Proof.
+  intros extra dls fuel. revert dls. induction fuel as [|f IH]; intros dls u pending input; [reflexivity|].
+  cbn [uci_run uci_exec].
+  destruct (match pending with Some l => Some (l, input) | None => match input with [] => None | (_, l) :: r => Some (l, r) end end) as [[l input']|]; [|reflexivity].
+  pose proof (step_uciok_count extra (List.hd O dls) u l input') as K.
+  destruct (uci_step extra (List.hd O dls) u l input') as [[[[u' outs] rq] input''] st].
+  cbn [map snd filter]. destruct st.
+  - specialize (IH (List.tl dls) u' rq input''). destruct (uci_run extra (List.tl dls) f u' rq input'') as [outs' st']. cbn [fst] in *.
+    rewrite count_uciok_app, K, IH. destruct (uci_line l); reflexivity.
+  - cbn [fst map filter List.length]. rewrite K. destruct (uci_line l); reflexivity.
+  - cbn [fst map filter List.length]. rewrite K. destruct (uci_line l); reflexivity.
+Qed.
+
 Print Assumptions C13_uciok.
+Print Assumptions C13_every_uci_of_a_session_is_answered_exactly_once.
 Print Assumptions C03_every_line_of_a_session_is_executed_in_a_legal_position.
 Print Assumptions C03_fresh_sessions_stay_in_legal_positions.
 Print Assumptions C13_every_isready_of_a_session_is_answered_exactly_once.
